@@ -75,3 +75,38 @@ func Harness_C18_others_untouched() {
 	verifAssert("C18.no-write-after-key-cast", !verifFrozenWrite())
 	verifReach("C18.others.end")
 }
+
+// A purge that completes while a fetch for the key is in flight (the fetcher holds the detached
+// entry): the purge takes only the shard lock, leaves the detached entry untouched (its waiters are
+// still released by its fetcher: BMC, C02), and later requests get a fresh entry.  With a store the
+// fetcher's write-through happens after the purge's Delete.
+func Harness_C18_purge_during_fetch() {
+	withStore := verifBool("withStore")
+	st := &faithfulStore{}
+	d := NewDispatcher(DispatcherOption{Name: "c", Size: 16})
+	if withStore {
+		d.store = st
+	}
+	k := []byte("GET h /a")
+	e := d.GetHTTPCache(k)
+	s0, _ := e.Get()
+	verifAssume(s0 == StatusFetching)
+	// a second request registers as a waiter (the critical section of Get(), without parking)
+	e.mu.Lock()
+	_, done, _ := e.get()
+	e.mu.Unlock()
+	verifAssume(done != nil)
+	d.RemoveHTTPCache(k) // must not block: a blocked path is reported as no-deadlock
+	verifAssert("C18.racing.purge-leaves-detached-entry-untouched", e.status == StatusFetching && len(e.chanList) == 1 && !verifLockHeld(e.mu))
+	e2 := d.GetHTTPCache(k)
+	verifAssert("C18.racing.later-requests-get-a-fresh-entry", e2 != e && e2.status == StatusUnknown)
+	// the fetcher finishes on the detached entry (its waiter list is emptied here so that the
+	// sequential run does not park; the hand-off itself is decided by the BMC systems)
+	e.chanList = nil
+	e.Cacheable(&HTTPResponse{}, 100)
+	s2, _ := e2.Get()
+	// known finding F11: with a store, the write-through of the in-flight fetch re-creates the
+	// persisted copy after the purge deleted it, and the fresh entry restores it
+	verifAssertKF("C18.racing.next-request-after-purge-goes-upstream", s2 == StatusFetching, "F11", withStore)
+	verifReach("C18.racing.end")
+}
